@@ -25,7 +25,11 @@ Record stepobs := mkStep { sev : ev; swire : list wobs; sblind : bool }.
    XBulk: n QoS 1 messages were handed to the OFFLINE durable session, then it reconnected and acknowledged
           everything it received: got = number of distinct messages that arrived in that connection. *)
 Inductive witem := WRun (a b : N) | WStuck (id : N).
-Inductive xcase := XWrap (items : list witem) | XBulk (n got : Z).
+(* XAckOrder (through the verif hook connection/ack_verif_test.go): the first message's acknowledgement frees its
+   identifier and the writer hands that identifier to the next message inside the release callback: the next
+   message got the same identifier; it is registered as unacknowledged afterwards; its own acknowledgement finds it;
+   the send quota (1 at the start) is back at 1 in the end. *)
+Inductive xcase := XWrap (items : list witem) | XBulk (n got : Z) | XAckOrder (same_id kept released : bool) (quota : Z).
 
 Definition free_run (a b : N) (stuck : list N) : bool :=
   (1 <=? a) && (a <=? b) && (b <=? 65535) && forallb (fun x => (x <? a) || (b <? x)) stuck.
@@ -49,6 +53,7 @@ Definition xcase_ok (x : xcase) : bool :=
   match x with
   | XWrap its => wrap_ok 0 [] its
   | XBulk n got => (got =? n)%Z
+  | XAckOrder same kept released quota => same && kept && released && (quota =? 1)%Z
   end.
 
 Record case := mkCase { rm0 : Z; offline_q0 : bool; steps : list stepobs; ran : bool; extra : option xcase }.
